@@ -66,7 +66,7 @@ def umeyama_alignment(x: np.ndarray, y: np.ndarray,
 
     # SVD (text betw. eq. 38 and 39)
     u, d, v = np.linalg.svd(cov_xy)
-    if np.count_nonzero(d > np.finfo(d.dtype).eps) < m - 1:
+    if np.linalg.matrix_rank(cov_xy) < m - 1:
         raise GeometryException("Degenerate covariance rank, "
                                 "Umeyama alignment is not possible")
 
